@@ -44,6 +44,23 @@ func xserveLine(reqs [][][]byte) string {
 	return "xserve | " + hx(b) + " | " + floatTable(reqs...)
 }
 
+// many returns cmd key m0 m1 ... m(n-1) (optionally with a score or value in front of / behind every member)
+func many(cmd, key string, n int, form string) [][]byte {
+	out := bs(cmd, key)
+	for i := 0; i < n; i++ {
+		m := fmt.Sprintf("m%02d", i)
+		switch form {
+		case "score":
+			out = append(out, []byte(fmt.Sprint(i%7)), []byte(m))
+		case "value":
+			out = append(out, []byte(m), []byte(fmt.Sprint(i)))
+		default:
+			out = append(out, []byte(m))
+		}
+	}
+	return out
+}
+
 func bs(args ...string) [][]byte {
 	out := make([][]byte, len(args))
 	for i, a := range args {
@@ -67,6 +84,7 @@ func menuHashes() [][][]byte {
 		bs("HDEL", "h1", "f"), bs("HDEL", "h1", "f", "g", "f", "n"), bs("HGETALL", "h1"), bs("HKEYS", "h1"), bs("HVALS", "h1"), bs("HLEN", "h1"), bs("HEXISTS", "h1", "f"), bs("HSTRLEN", "h1", "f"),
 		bs("HMSET", "h1", "a", "1", "b", "2", "a", "3"), bs("HMGET", "h1", "a", "b", "c", "a"), bs("EXISTS", "h1"), bs("TYPE", "h1"), bs("DEL", "h1"), bs("RENAME", "h1", "h2"), bs("HGETALL", "h2"), bs("KEYS", "*"),
 		// the renamed hash is used further, emptied, renamed back
+		many("HMSET", "h1", 20, "value"), many("HMGET", "h1", 24, ""), bs("HMSET", "h1", "dupf", "1", "dupf", "2"), bs("HGET", "h1", "dupf"), many("HDEL", "h1", 20, ""),
 		bs("HDEL", "h2", "f", "g", "n", "a", "b"), bs("HDEL", "h2", "f"), bs("HSET", "h2", "f", "2"), bs("HLEN", "h2"), bs("EXISTS", "h1", "h2"), bs("RENAME", "h2", "h1"), bs("DEL", "h2")}
 }
 func menuLists() [][][]byte {
@@ -75,11 +93,13 @@ func menuLists() [][][]byte {
 		bs("LRANGE", "l1", "-100", "100"), bs("LRANGE", "l1", "-9223372036854775808", "9223372036854775807"), bs("LRANGE", "l1", "9223372036854775807", "-9223372036854775808"), bs("LINDEX", "l1", "9223372036854775807"), bs("LINDEX", "l1", "-9223372036854775808"), bs("LINDEX", "l1", "0"), bs("LINDEX", "l1", "-1"), bs("LINDEX", "l1", "7"), bs("LLEN", "l1"), bs("LLEN", "l2"), bs("EXISTS", "l1", "l2"), bs("TYPE", "l1"),
 		bs("DEL", "l1"), bs("RENAME", "l1", "l2"), bs("LRANGE", "l2", "0", "-1"), bs("KEYS", "l*"),
 		// the renamed list is used further, drained, renamed back
+		many("RPUSH", "l1", 20, ""), many("LPUSH", "l1", 17, ""), bs("LRANGE", "l1", "15", "18"), bs("LINDEX", "l1", "16"), bs("LPOP", "l1", "18"), bs("RPOP", "l1", "19"),
 		bs("LPOP", "l2"), bs("RPOP", "l2"), bs("LPOP", "l2", "5"), bs("RPUSH", "l2", "z"), bs("RENAME", "l2", "l1"), bs("DEL", "l2"), bs("TYPE", "l2")}
 }
 func menuSets() [][][]byte {
 	return [][][]byte{bs("SADD", "t1", "a"), bs("SADD", "t1", "b", "a", "b", "c"), bs("SREM", "t1", "a"), bs("SREM", "t1", "a", "b", "c", "a"), bs("SMEMBERS", "t1"), bs("SCARD", "t1"),
 		bs("SISMEMBER", "t1", "a"), bs("SISMEMBER", "t1", "zz"), bs("SMEMBERS", "t2"), bs("SCARD", "t2"), bs("EXISTS", "t1", "t2"), bs("TYPE", "t1"), bs("DEL", "t1"), bs("RENAME", "t1", "t2"), bs("KEYS", "t?"),
+		many("SADD", "t1", 20, ""), many("SADD", "t1", 33, ""), bs("SADD", "t1", "dup", "dup"), bs("SADD", "t1", "n1", "n2", "n1", "m03"), bs("SREM", "t1", "dup"), many("SREM", "t1", 33, ""),
 		bs("SREM", "t2", "a", "b", "c"), bs("SREM", "t2", "a"), bs("SADD", "t2", "x"), bs("RENAME", "t2", "t1"), bs("DEL", "t2"), bs("TYPE", "t2")}
 }
 func menuZSets() [][][]byte {
@@ -93,6 +113,7 @@ func menuZSets() [][][]byte {
 		bs("ZREVRANGEBYSCORE", "z1", "(2", "1"), bs("ZREVRANGEBYSCORE", "z1", "2", "(1", "WITHSCORES"), bs("ZREVRANGEBYSCORE", "z1", "+inf", "-inf", "LIMIT", "0", "1"),
 		bs("ZREVRANGEBYSCORE", "z1", "5", "0", "WITHSCORES", "LIMIT", "1", "2"),
 		bs("EXISTS", "z1", "z2"), bs("TYPE", "z1"), bs("DEL", "z1"), bs("RENAME", "z1", "z2"), bs("ZRANGE", "z2", "0", "-1"), bs("KEYS", "z*"),
+		many("ZADD", "z1", 20, "score"), many("ZADD", "z1", 33, "score"), bs("ZADD", "z1", "1", "dup", "2", "dup"), bs("ZADD", "z1", "5", "m03", "5", "m04", "5", "m03"), bs("ZSCORE", "z1", "dup"), bs("ZRANGE", "z1", "14", "18", "WITHSCORES"), many("ZREM", "z1", 33, ""),
 		bs("ZREM", "z2", "a", "b", "c", "d", "e", "n"), bs("ZREM", "z2", "a"), bs("ZADD", "z2", "1", "q"), bs("RENAME", "z2", "z1"), bs("DEL", "z2"), bs("TYPE", "z2")}
 }
 
